@@ -21,7 +21,7 @@ NOT_DECIDED = "map semantics of the hash table under all histories (resize-until
 TRUSTED = ["clang 14 parser/CFG builder", "echse-facts extractor", "python rule engines in /verif/sa"]
 LEVEL_TEXT = ("Static verdict on necessary structural clauses of C11 over all paths of the daemon's command layer: authorisation dominates "
               "every effect on a looked-up task, one reply per instruction with the right polarity, run-as provenance. It decides those "
-              "clauses, not the map semantics of the table. Also: the 12-row decision table of the submission gate (asker, owner, daemon uid) and the rule that table slot indices are not kept across a re-hash.")
+              "clauses, not the map semantics of the table. Also: the 12-row decision table of the submission gate (asker, owner, daemon uid) and the rule that table slot indices are not kept across a re-hash. The reply to an answered instruction names the request's own task (the reader sets the oid for every answered verb).")
 LEVEL_NOTE = "Trusted: clang 14 front end/CFG, extractor, rule engines. Hash-table behaviour under collisions is not decided."
 TECHNIQUE = "static analysis: dominance via forward must-facts on clang CFGs, path-sensitive abstract walk, def-use provenance; value-fixed decision-table walk of the submission gate"
 
@@ -807,6 +807,86 @@ def r11_6(prog, rep):
                      "update ->%s: after a re-hash the task is looked up at a stale position (cancel is acknowledged, the entry stays in the map)" % (text, fld))
 
 
+def r11_7(prog, rep):
+    """The reply names the task the request was about.  cmd_ical_rpl() prints `UID:` from the instruction's oid; for every verb that
+    cmd_ical() answers, the reader of the request (echs_evical_pull) must have set that oid on every path that yields the verb.  Both
+    sides are walked with their discriminant fixed to each enumerator (the request's METHOD, the instruction's verb)."""
+    rid = "R11.7"
+    ci = prog.fn("cmd_ical", DAEMON)
+    ven = prog.enum(having="INSVERB_SCHE")
+    men = prog.enum(having="METH_PUBLISH")
+    if not ven or not men:
+        raise AnalysisBroken("R11.7: verb / method enumerations not found")
+    # verbs that are answered
+    insv = None
+    for b, i, x, line in ci.cfg.all_elems():
+        for nn in walk(ci.cfg.resolve(x) if isinstance(x, dict) else {}):
+            if nn.get("k") == "mem" and nn.get("f") == "v" and "ins" in lv(nn):
+                insv = lv(nn)
+    if insv is None:
+        raise AnalysisBroken("R11.7: cmd_ical no longer dispatches on the instruction's verb")
+    answered = {}
+    for name, val in ven["enumerators"]:
+        hit = []
+
+        def eff(b, i, x, store, _h=hit, _v=val):
+            upd = {}
+            if not store.get("$pinned"):
+                upd[insv] = _v
+            for l, kind, nn in writes(x):
+                if lv(l) == insv.split(".")[0]:
+                    upd["$pin"] = 1
+                elif lv(l) == insv:
+                    upd["$pinned"] = 1      # the handler rewrites the verb into SUCC/FAIL: leave it alone from here on
+            for c_ in (calls(x) if isinstance(x, dict) else []):
+                # the reply to this instruction (the flush form passes a literal UNK instruction)
+                if c_.get("fn") == "cmd_ical_rpl" and any(lv(strip_casts(ci.cfg.resolve(a_))) == insv.split(".")[0] for a_ in c_["a"]):
+                    _h.append(1)
+            return upd
+        AbsWalk(ci, {insv}, init={}, effect=eff, max_states=20000, widen=8).run()
+        if hit:
+            answered[val] = name
+    if len(answered) < 2:
+        raise AnalysisBroken("R11.7: fewer than two answered verbs found (%s)" % answered)
+    pull = prog.fn("echs_evical_pull", "evical.c")
+    cfg = pull.cfg
+    iv = methlv = None
+    for b, i, x, line in cfg.all_elems():
+        for nn in walk(cfg.resolve(x) if isinstance(x, dict) else {}):
+            if nn.get("k") == "mem" and nn.get("f") == "meth":
+                methlv = lv(nn)
+        if isinstance(x, dict) and x.get("k") == "ret" and x.get("e") is not None:
+            iv = lv(strip_casts(cfg.resolve(x["e"])))
+    if methlv is None or iv is None:
+        raise AnalysisBroken("R11.7: echs_evical_pull: method discriminant / result variable not found")
+    n = 0
+    for mname, mval in men["enumerators"]:
+        w = AbsWalk(pull, {iv + ".v", iv, methlv}, init={methlv: mval},
+                    effect=lambda b, i, x, store, _m=mval: dict({methlv: _m}, **({"$o": 1} if any(lv(l) == iv + ".o" for l, k_, n_ in writes(x)) else {})),
+                    max_states=20000).run()
+        for st in w.exit_stores:
+            v = st.get(iv + ".v")
+            if v in answered:
+                n += 1
+                key = "echs_evical_pull/%s->%s sets the oid" % (mname, answered[v])
+                if st.get("$o"):
+                    rep.ok(rid, key, pull.loc(), "METHOD %s yields %s with the instruction's oid set" % (mname, answered[v]))
+                else:
+                    rep.fail(rid, key, pull.loc(), "a %s request yields the verb %s, which cmd_ical() answers, but the instruction's oid is never set on that "
+                             "path: the reply's `UID:` is obint_name(0) — the first string the daemon ever interned, e.g. another user's UID — instead of "
+                             "the UID of the request" % (mname, answered[v]))
+    if n < 3:
+        rep.broken_("rule=R11.7 expected >=3 (method, answered verb) outcomes, found %d" % n)
+
+
+def _loop_heads(f):
+    return set(f.cfg.natural_loops())
+
+
+def elem_has_call_(x, name):
+    return any(c.get("fn") == name for c in calls(x)) if isinstance(x, dict) else False
+
+
 def run(prog, rep, tier, snap):
     rep.rule("R11.1", "ownership test dominates every effect on a task handle taken from the shared table; uid gate of cmd_http", 15)
     n = rep.call(r11_1, prog, rep)
@@ -822,5 +902,7 @@ def run(prog, rep, tier, snap):
     rep.call(r11_5, prog, rep)
     rep.rule("R11.6", "slot indices of the task table are not kept across a re-hash", 1)
     rep.call(r11_6, prog, rep)
+    rep.rule("R11.7", "the reply names the task of the request: the oid is set for every answered verb", 3)
+    rep.call(r11_7, prog, rep)
 
 READY = True
